@@ -36,6 +36,8 @@ var parkingSites = map[string]bool{
 }
 
 type ctl struct {
+	prefix  string          // hook sites handled ("em." or "en."); others run freely
+	parking map[string]bool // sites at which the goroutine waits for the scheduler
 	mu      sync.Mutex
 	parked  map[int64]chan struct{}
 	events  chan pevent
@@ -44,16 +46,16 @@ type ctl struct {
 }
 
 func newCtl() *ctl {
-	return &ctl{parked: map[int64]chan struct{}{}, events: make(chan pevent, 1<<14), abort: make(chan struct{})}
+	return &ctl{prefix: "em.", parking: parkingSites, parked: map[int64]chan struct{}{}, events: make(chan pevent, 1<<14), abort: make(chan struct{})}
 }
 
 func (c *ctl) hook(site, key string) {
-	if !strings.HasPrefix(site, "em.") {
+	if !strings.HasPrefix(site, c.prefix) {
 		return
 	}
 	g := hx.GoID()
 	var ch chan struct{}
-	if parkingSites[site] {
+	if c.parking[site] {
 		ch = make(chan struct{})
 		c.mu.Lock()
 		c.parked[g] = ch
@@ -257,6 +259,8 @@ func (p *psched) choices() []choice {
 		case wAtSend:
 			if p.buf < p.lim {
 				cs = append(cs, choice{"sendV", i})
+			} else {
+				p.r.Count("proto:worker-blocked-on-full-vCh")
 			}
 		}
 	}
@@ -330,6 +334,7 @@ func (p *psched) exec(ch choice) bool {
 		switch e.site {
 		case "em.w.cancelled":
 			p.emit(fmt.Sprintf("check %d 1", ch.w))
+			p.r.Count("proto:worker-saw-cancelled-context")
 			p.wPhase[ch.w] = wExited
 			return p.afterWorkerExit()
 		case "em.w.run":
@@ -348,6 +353,7 @@ func (p *psched) exec(ch choice) bool {
 		switch e.site {
 		case "em.w.err":
 			p.emit(fmt.Sprintf("finish %d 0", ch.w))
+			p.r.Count("proto:matcher-failed")
 			p.wPhase[ch.w] = wExited
 			p.cancelled = true
 			return p.afterWorkerExit()
